@@ -1,6 +1,8 @@
 """Snapshot transfer (C12/C13): the part size constant of gamenet/snap, and the integer literals of
 the sender's chunker (snapshot/src/snap.rs `delta_chunks`, `DeltaChunks::next`) and of the
-receiver (snapshot/src/receiver.rs `snap`), in source order."""
+receiver (snapshot/src/receiver.rs `snap`).  Robust against behaviour-preserving rewrites: file-level
+constants are resolved, private helpers followed, literal lists are sorted multisets, and the two
+argument checks of `snap` are extracted as ranges whichever way they are spelt."""
 import re
 
 import exlib
@@ -12,6 +14,66 @@ def _impl_fn_body(src, impl_pat, fn, rel):
     if not m:
         raise exlib.ExtractError("impl block /%s/ not found in %s" % (impl_pat, rel))
     return exlib.fn_body(src[m.start():], fn, 0, rel)
+
+
+def _file_consts(src, rel):
+    """name -> value for the file-level `const NAME: T = <integer expr>;` items."""
+    out = {}
+    for m in re.finditer(r"\bconst\s+([A-Z][A-Z0-9_]*)\s*:", src):
+        try:
+            out[m.group(1)] = exlib.const_expr(src, m.group(1), rel, env=out)
+        except exlib.ExtractError:
+            pass
+    return out
+
+
+def _with_helpers(src, body, rel, seen=None):
+    """`body` followed by the bodies of the private `self.<helper>(..)` methods it calls
+    (transitively), so that moving a test into a helper does not change what is extracted."""
+    seen = seen if seen is not None else set()
+    out = body
+    for m in re.finditer(r"\bself\s*\.\s*([a-z_][a-z0-9_]*)\s*\(", body):
+        name = m.group(1)
+        if name in seen or not re.search(r"\bfn\s+%s\b" % name, src):
+            continue
+        seen.add(name)
+        out += "\n" + _with_helpers(src, exlib.fn_body(src, name, 0, rel), rel, seen)
+    return out
+
+
+def _literal_multiset(text, consts):
+    """Sorted integer literals of a piece of Rust, file-level constants resolved to their values.
+    Order carries no meaning for these ties (the comparisons themselves are extracted separately
+    where they matter, or tied by the correspondence)."""
+    vals = list(exlib.int_literals(text))
+    for name, v in consts.items():
+        vals += [v] * len(re.findall(r"\b%s\b" % name, text))
+    return sorted(vals)
+
+
+def _value(tok, consts, what, rel):
+    tok = tok.strip()
+    if tok in consts:
+        return consts[tok]
+    try:
+        return int(tok.replace("_", ""), 0)
+    except ValueError:
+        raise exlib.ExtractError("cannot evaluate bound `%s` of %s in %s" % (tok, what, rel))
+
+
+def _bounds(body, var, consts, rel):
+    """The check on `var` in `DeltaReceiver::snap`, in either spelling:
+         `lo <= var && var <= hi` / `var < hi`      or      `(lo..=hi).contains(&var)` / `(lo..hi)`.
+    Returns (lo, hi_token, hi_inclusive): `lo` an integer, `hi_token` the source text of the upper
+    bound."""
+    v = re.escape(var)
+    m = re.search(r"([A-Za-z0-9_]+)\s*<=\s*%s\s*&&\s*%s\s*(<=|<)\s*([A-Za-z0-9_.]+)" % (v, v), body)
+    if m:
+        return _value(m.group(1), consts, var, rel), m.group(3), m.group(2) == "<="
+    m = re.search(r"\(\s*([A-Za-z0-9_]+)\s*(\.\.=|\.\.)\s*([A-Za-z0-9_.]+)\s*\)\s*\.contains\(\s*&\s*%s\s*\)" % v, body)
+    if m:
+        return _value(m.group(1), consts, var, rel), m.group(3), m.group(2) == "..="
+    raise exlib.ExtractError("range check on %s not found in DeltaReceiver::snap of %s" % (var, rel))
 
 
 def run(repo):
@@ -27,14 +89,16 @@ def run(repo):
 
     rel = "snapshot/src/snap.rs"
     src = exlib.strip_rust_comments(exlib.read(repo, rel))
+    sconsts = _file_consts(src, rel)
+    sconsts.pop("MAX_SNAPSHOT_PACKSIZE", None)
     body = exlib.fn_body(src, "delta_chunks", 0, rel)
-    s += "/-- integer literals of `fn delta_chunks` in %s, in source order -/\n" % rel
-    s += "def lits_delta_chunks : List Nat := %s\n\n" % exlib.lean_nat_list(exlib.int_literals(body))
+    s += "/-- integer literals of `fn delta_chunks` in %s, constants resolved, sorted -/\n" % rel
+    s += "def lits_delta_chunks : List Nat := %s\n\n" % exlib.lean_nat_list(_literal_multiset(body, sconsts))
     s += "/-- does `fn delta_chunks` compute the wire's relative tick with `wrapping_sub`? -/\n"
     s += "def delta_chunks_wrapping : Bool := %s\n\n" % ("true" if "wrapping_sub" in body else "false")
     body = _impl_fn_body(src, r"impl\s*<[^>]*>\s*Iterator\s+for\s+DeltaChunks", "next", rel)
-    s += "/-- integer literals of `DeltaChunks::next` in %s, in source order -/\n" % rel
-    s += "def lits_delta_chunks_next : List Nat := %s\n\n" % exlib.lean_nat_list(exlib.int_literals(body))
+    s += "/-- integer literals of `DeltaChunks::next` in %s, constants resolved, sorted -/\n" % rel
+    s += "def lits_delta_chunks_next : List Nat := %s\n\n" % exlib.lean_nat_list(_literal_multiset(body, sconsts))
 
     rel = "snapshot/src/receiver.rs"
     src = exlib.strip_rust_comments(exlib.read(repo, rel))
@@ -42,9 +106,27 @@ def run(repo):
     cut = src.find("#[cfg(test)]")
     if cut >= 0:
         src = src[:cut]
-    for fn in ("snap",):
-        body = exlib.fn_body(src, fn, 0, rel)
-        s += "/-- integer literals of `DeltaReceiver::%s` in %s, in source order -/\n" % (fn, rel)
-        s += "def lits_receiver_%s : List Nat := %s\n\n" % (fn, exlib.lean_nat_list(exlib.int_literals(body)))
+    consts = _file_consts(src, rel)
+    body = exlib.fn_body(src, "snap", 0, rel)
+    # the two argument checks, as inclusive integer ranges / relations (spelling-independent)
+    lo, hi_tok, incl = _bounds(body, "snap.num_parts", consts, rel)
+    hi = _value(hi_tok, consts, "snap.num_parts", rel)
+    if not incl:
+        hi -= 1
+    if lo < 0 or hi < 0:
+        raise exlib.ExtractError("negative num_parts bound in %s" % rel)
+    s += "/-- `DeltaReceiver::snap` accepts `num_parts` in this inclusive range (%s) -/\n" % rel
+    s += "def receiver_num_parts_range : Nat × Nat := (%d, %d)\n\n" % (lo, hi)
+    plo, phi_tok, pincl = _bounds(body, "snap.part", consts, rel)
+    if plo < 0:
+        raise exlib.ExtractError("negative part bound in %s" % rel)
+    s += "/-- `DeltaReceiver::snap` accepts `part` from this value … -/\n"
+    s += "def receiver_part_lower : Nat := %d\n\n" % plo
+    s += "/-- … up to `num_parts`, exclusive -/\n"
+    s += "def receiver_part_below_num_parts : Bool := %s\n\n" % ("true" if (phi_tok == "snap.num_parts" and not pincl) else "false")
+    # all integer literals of `snap` and the private helpers it calls, constants resolved, sorted
+    full = _with_helpers(src, body, rel)
+    s += "/-- integer literals of `DeltaReceiver::snap` and the private helpers it calls in %s,\nfile-level constants resolved, sorted -/\n" % rel
+    s += "def lits_receiver_snap : List Nat := %s\n\n" % exlib.lean_nat_list(_literal_multiset(full, consts))
     s += "end Tw.Gen.SnapXfer\n"
     return {"SnapXfer.lean": s}
